@@ -73,12 +73,15 @@ func randMeta(rng *rand.Rand, n int) string {
 func TestVerifC10Vec(t *testing.T) {
 	defer rt.Flush()
 	var in struct {
-		Vectors   []vec `json:"vectors"`
-		SweepLens []int `json:"sweep_lens"` // name lengths of the recorded sweep
-		SweepFrom int   `json:"sweep_from"` // first limit unit
-		SweepTo   int   `json:"sweep_to"`   // last limit unit
-		HdrLens   []int `json:"hdr_lens"`   // header lengths for limit 0 rows
-		RandNames int   `json:"rand_names"`
+		Vectors    []vec `json:"vectors"`
+		SweepLens  []int `json:"sweep_lens"`   // name lengths of the recorded sweep
+		SweepFrom  int   `json:"sweep_from"`   // first limit unit
+		SweepTo    int   `json:"sweep_to"`     // last limit unit
+		HdrLens    []int `json:"hdr_lens"`     // header lengths for limit 0 rows
+		SweepLensU []int `json:"sweep_lens_u"` // name lengths for the unaligned limits
+		ByteFrom   int   `json:"byte_from"`    // unaligned limits: every byte value in [ByteFrom, ByteTo)
+		ByteTo     int   `json:"byte_to"`
+		RandNames  int   `json:"rand_names"`
 	}
 	if err := rt.In(&in); err != nil {
 		t.Skip(err)
@@ -156,6 +159,15 @@ func TestVerifC10Vec(t *testing.T) {
 	for u := in.SweepFrom; u <= in.SweepTo; u++ {
 		row(32, 32*u)
 	}
+	// limits that are not multiples of 32 (a foreign writer's exact record end): every byte value of the range
+	save := in.SweepLens
+	in.SweepLens = in.SweepLensU
+	for l := in.ByteFrom; l < in.ByteTo; l++ {
+		if l%32 != 0 {
+			row(32, l)
+		}
+	}
+	in.SweepLens = save
 	for i := 0; i < in.RandNames; i++ {
 		var l int
 		switch rng.Intn(100) {
@@ -435,8 +447,8 @@ func (w *world) createInd() error {
 
 // add performs one increment by actor a ("ind" = independent writer).
 func (w *world) add(a string, name []byte, k int64) error {
-	if a == "ind" {
-		return indAdd(w.path, string(name), uint64(k))
+	if a == "ind" || a == "indx" {
+		return indAddx(w.path, string(name), uint64(k), a == "indx")
 	}
 	if w.lib[a] == nil {
 		if err := w.open(a); err != nil {
@@ -530,7 +542,7 @@ func (w *world) stackInc(a string) ([]byte, error) {
 }
 
 func (w *world) reopen(a string) error {
-	if a == "ind" {
+	if a == "ind" || a == "indx" {
 		return nil
 	}
 	if v := w.lib[a]; v != nil {
@@ -539,16 +551,52 @@ func (w *world) reopen(a string) error {
 	return w.open(a)
 }
 
+// layoutProblems returns the problems the independent decoder finds, without
+// the two that only say "the allocation limit is not a multiple of 32": the
+// layout documents the limit as the byte offset of the end of the counter
+// records, and a writer may store the exact, unrounded end of its last record
+// (rt.DecodeV1 compares with the rounded end).
+func layoutProblems(f *rt.V1File) []string {
+	first := f.HdrLen + 4 + 4*512
+	var out []string
+	for _, p := range f.Problems {
+		if strings.HasPrefix(p, "limit ") && strings.HasSuffix(p, " malformed") && f.Limit >= first {
+			continue
+		}
+		if strings.HasPrefix(p, "record ") && strings.Contains(p, " above limit ") && f.Limit != 0 {
+			var off uint32
+			if _, err := fmt.Sscanf(p, "record 0x%x", &off); err == nil {
+				spurious := false
+				for _, r := range f.Records {
+					if r.Off == off && r.Off+16+uint32(len(r.Name)) <= f.Limit {
+						spurious = true
+					}
+				}
+				if spurious {
+					continue
+				}
+			}
+		}
+		out = append(out, p)
+	}
+	return out
+}
+
 // indAdd is the independent implementation acting as one more writer of the
 // file: it touches only the bytes the layout says change.
-func indAdd(path, name string, k uint64) error {
+func indAdd(path, name string, k uint64) error { return indAddx(path, name, k, false) }
+
+// indAddx: with exact set, the writer stores the exact end of a new record
+// (the offset of the byte after its name) as the allocation limit, not the
+// end rounded to 32.
+func indAddx(path, name string, k uint64, exact bool) error {
 	data, err := os.ReadFile(path)
 	if err != nil {
 		return err
 	}
 	f := rt.DecodeV1(data)
-	if !f.WellFormed() {
-		return fmt.Errorf("independent writer: file not well-formed: %v", f.Problems)
+	if pr := layoutProblems(f); len(pr) > 0 {
+		return fmt.Errorf("independent writer: file not well-formed: %v", pr)
 	}
 	fh, err := os.OpenFile(path, os.O_RDWR, 0)
 	if err != nil {
@@ -585,6 +633,9 @@ func indAdd(path, name string, k uint64) error {
 	le.PutUint32(b[:], start)
 	if _, err := fh.WriteAt(b[:], headOff); err != nil {
 		return err
+	}
+	if exact {
+		end = start + 16 + uint32(len(name))
 	}
 	le.PutUint32(b[:], end)
 	_, err = fh.WriteAt(b[:], int64(f.HdrLen))
@@ -817,7 +868,7 @@ func TestVerifC10Ops(t *testing.T) {
 				break
 			}
 			// every replayed step is also an observed event for TLC (layout, content, monotonicity)
-			ev := rt.M{"kind": "ev", "op": st.Op, "a": st.A, "k": st.K, "m": st.M, "run": 1000000 + bh.ID, "problems": len(f.Problems),
+			ev := rt.M{"kind": "ev", "op": st.Op, "a": st.A, "k": st.K, "m": st.M, "run": 1000000 + bh.ID, "problems": len(layoutProblems(f)),
 				"name": rt.M{"id": 0, "nlen": 0, "b": 0},
 				"obs":  rt.M{"metaLen": got.MetaLen, "hdrLen": got.HdrLen, "size": got.Size, "limit": got.Limit, "heads": headsJSON(got), "recs": got.Recs}}
 			if st.Op == "add" || st.Op == "alien" || st.Op == "race" {
@@ -827,8 +878,8 @@ func TestVerifC10Ops(t *testing.T) {
 				ev["xname"] = rt.M{"id": st.X, "nlen": len(names[st.X]), "b": int(rt.V1Hash(string(names[st.X])))}
 			}
 			rt.Out(ev)
-			if !f.WellFormed() {
-				fail(i, st, "layout", rt.M{"problems": f.Problems, "got": brief(got)})
+			if len(layoutProblems(f)) > 0 {
+				fail(i, st, "layout", rt.M{"problems": layoutProblems(f), "got": brief(got)})
 				break
 			}
 			if d := diffState(st.State, got); d != "" && !diverged {
@@ -915,8 +966,8 @@ func TestVerifC10Ops(t *testing.T) {
 			ev["problems"] = len(f.Problems)
 			rt.Out(ev)
 			events++
-			if !f.WellFormed() {
-				rt.Out(rt.M{"kind": "mismatch", "what": "layout", "problems": f.Problems, "random_run": run, "op": op, "a": a, "got": brief(obs)})
+			if len(layoutProblems(f)) > 0 {
+				rt.Out(rt.M{"kind": "mismatch", "what": "layout", "problems": layoutProblems(f), "random_run": run, "op": op, "a": a, "got": brief(obs)})
 				return false
 			}
 			if f.MetaRaw != w.meta {
@@ -933,7 +984,7 @@ func TestVerifC10Ops(t *testing.T) {
 			w.closeAll()
 			continue
 		}
-		actors := []string{"lib1", "lib1", "lib2", "ind"}
+		actors := []string{"lib1", "lib1", "lib2", "ind", "indx"}
 		for i := 0; i < in.RandomLen; i++ {
 			if rng.Intn(9) == 0 { // a writer with other metadata (same or different length class) opens the file and counts
 				m2 := in.MetaLens[rng.Intn(len(in.MetaLens))]
@@ -1016,7 +1067,7 @@ func TestVerifC10Ops(t *testing.T) {
 			}
 			a := actors[rng.Intn(len(actors))]
 			k := int64(1 + rng.Intn(1000))
-			if isNew && a != "ind" && rng.Intn(2) == 0 {
+			if isNew && a != "ind" && a != "indx" && rng.Intn(2) == 0 {
 				// does the file have to grow for this name?  then let the independent writer create a name at the same time
 				if cur, _, data, err := w.observe(rids); err == nil {
 					if _, end := rt.V1Place(uint32(cur.HdrLen), uint32(cur.Limit), len(name)); int(end) > len(data) {
